@@ -244,7 +244,7 @@ Lemma step_other_count f e s s' l :
   (forall sp, e <> EFetch sp) -> step e s = (s', l) ->
   holders f s' + cnt f l = holders f s /\ s_nfetch s' = s_nfetch s /\ oklog l.
 Proof.
-  intros Hne H. destruct e as [sp|a|a|a|a|a code hasloc|a|a]; simpl in H.
+  intros Hne H. destruct e as [sp|a|a|a|a|a code hasloc|a|a|a|a]; simpl in H.
   - exfalso. eapply Hne. reflexivity.
   - (* EQTimeout *)
     destruct (nth_error (s_atts s) a) as [x|] eqn:En.
@@ -304,11 +304,21 @@ Proof.
     assert (Hh : holders f (set_st a (AConn cb rel t PFinished) s) = holders f s) by (hs_same G).
     apply (handle_exception_count f) in H. destruct H as (H1 & H2 & H3).
     split; [lia|split; [rewrite H2; apply set_st_nfetch|exact H3]].
+  - (* EMalformed *)
+    destruct (get_st a s) as [[tm|cb rel t [| |]|]|] eqn:G; try (triv H f).
+    assert (Hh : holders f (set_st a (AConn cb rel t PFinished) s) = holders f s) by (hs_same G).
+    apply (handle_exception_count f) in H. destruct H as (H1 & H2 & H3).
+    split; [lia|split; [rewrite H2; apply set_st_nfetch|exact H3]].
+  - (* EBadFraming *)
+    destruct (get_st a s) as [[tm|cb rel t [| |]|]|] eqn:G; try (triv H f).
+    assert (Hh : holders f (set_st a (AConn cb rel t PFinished) s) = holders f s) by (hs_same G).
+    apply (handle_exception_count f) in H. destruct H as (H1 & H2 & H3).
+    split; [lia|split; [rewrite H2; apply set_st_nfetch|exact H3]].
 Qed.
 
 Lemma step_oklog e s s' l : step e s = (s', l) -> oklog l.
 Proof.
-  intro H. destruct e as [sp|a|a|a|a|a code hasloc|a|a];
+  intro H. destruct e as [sp|a|a|a|a|a code hasloc|a|a|a|a];
     try (apply (step_other_count 0) in H; [apply H|intros sp0 E0; discriminate E0]).
   apply (step_fetch_count 0) in H. apply oklog_quiet, H.
 Qed.
@@ -323,7 +333,7 @@ Proof. intro f. reflexivity. Qed.
 Lemma CInv_step e s L s' l : CInv s L -> step e s = (s', l) -> CInv s' (L ++ l).
 Proof.
   intros HI H f. specialize (HI f). rewrite count_done_app, count_lost_app.
-  destruct e as [sp|a|a|a|a|a code hasloc|a|a];
+  destruct e as [sp|a|a|a|a|a code hasloc|a|a|a|a];
     try (apply (step_other_count f) in H; [|intros sp0 E0; discriminate E0];
          destruct H as (H1 & H2 & _); rewrite H2; unfold cnt in H1; lia).
   apply (step_fetch_count f) in H. destruct H as (H1 & H2 & H3).
